@@ -24,13 +24,35 @@ RUNS = [0, 1, 2]
 TAGGED = [3]
 CHAINS = [4, 5, 6, 7, 8]
 UNKNOWN = 9
+CALIB = [10]
 DIDS = [0, 1, 2, 16, 17]
+# dataset types: governor dimensions (0 = instrument, 1 = skymap) and isCalibration; data ID domains (see c03_impl)
+TYPES = {0: ([0], False), 1: ([0], False), 2: ([1], False), 3: ([0], True), 4: ([0, 1], False)}
+DOM = {0: DIDS, 1: DIDS, 2: [64, 128], 3: DIDS, 4: [64, 80, 128, 144]}
+UNKNOWN_TY = 9
+
+
+def gval(g, d):
+    return (d // 16) % 4 if g == 0 else d // 64
+
+
+def probe_cons(p, d):
+    """the governor constraint of a query-based find probe for data ID d: from the data ID (gc) and the WHERE clause"""
+    out = {}
+    if p.get("gc"):
+        for g in TYPES.get(p["ty"], ([0], False))[0]:
+            out[g] = gval(g, d)
+    if p.get("fg") is not None:
+        out[1] = p["fg"] + 1
+    if p.get("ig") is not None:
+        out[0] = p["ig"]
+    return out
 API_NAMES = {0: "Butler.find_dataset", 1: "Registry.findDataset", 2: "Butler.query_datasets(find_first)",
              3: "Registry.queryDatasets(findFirst)", 4: "Butler.get"}
 ERR = {"MissingCollection": "EMissing", "Cycle": "ECycle", "CollectionTypeErr": "ECollType", "Conflict": "EConflict",
-       "SqlError": "EFk"}
+       "SqlError": "EFk", "NotImplementedError": "ENotImpl", "DatasetTypeErr": "ETypeErr", "MissingDatasetType": "EMissingType"}
 KIND = {"redefine": "KRedefine", "prepend": "KPrepend", "extend": "KExtend", "remove": "KRemove"}
-CTYPE = {"run": "CRun", "tagged": "CTagged", "chained": "CChained"}
+CTYPE = {"run": "CRun", "tagged": "CTagged", "chained": "CChained", "calib": "CCalib"}
 
 
 # ---------------------------------------------------------------------------------------------
@@ -131,20 +153,20 @@ class Gen:
         self.chains = {}
         self.contents = {}
         self.homes = {}     # k -> (ty, d)
-        self.skyruns = set()
         self.nextk = 0
         self.ops = []
         self.probes = []
         r = rng
-        setup = [("reg", c, "run") for c in RUNS] + [("reg", 3, "tagged")] + [("reg", c, "chained") for c in CHAINS[:r.randint(3, 5)]]
+        setup = [("reg", c, "run") for c in RUNS] + [("reg", 3, "tagged")] + [("reg", c, "calib") for c in CALIB] + \
+                [("reg", c, "chained") for c in CHAINS[:r.randint(3, 5)]]
         r.shuffle(setup)
         late = [setup.pop() for _ in range(r.randint(0, 2))]
         for op in setup:
             self.emit(list(op), light=True)
-        for _ in range(r.randint(5, 9)):
+        for _ in range(r.randint(6, 11)):
             self.emit(self.gen_set(), light=True)
-        for _ in range(r.randint(0, 3)):
-            self.emit(["sky", r.choice(RUNS), r.randint(0, 1)], light=True)
+        for _ in range(r.randint(0, 2)):
+            self.emit(self.gen_cert(), light=True)
         for i in range(nsteps):
             x = r.random()
             if late and x < 0.12:
@@ -152,27 +174,79 @@ class Gen:
             elif x < 0.22:
                 self.emit(self.gen_set())
                 if r.random() < 0.5:
-                    # a {skymap}-only dataset next to it: puts a foreign governor value into a RUN's summary
-                    self.emit(["sky", r.choice([c for c in RUNS if c in self.colls] or [0]), r.randint(0, 1)], light=True)
+                    # a {skymap}-only dataset next to it: puts a value of another governor into a RUN's summary
+                    self.emit(self.gen_set(ty=2), light=True)
             elif x < 0.27:
                 self.emit(self.gen_rm())
             elif x < 0.29:
-                self.emit(["reg", r.choice(list(self.colls) or [0]), r.choice(["run", "chained"])])
+                self.emit(["reg", r.choice(list(self.colls) or [0]), r.choice(["run", "chained", "calib"])])
+            elif x < 0.34:
+                self.emit(self.gen_cert())
+            elif x < 0.355:
+                ty = r.choice(list(TYPES))
+                gs = TYPES[ty][0] if r.random() < 0.5 else r.choice([[0], [1], [0, 1]])
+                self.emit(["type", ty, gs, TYPES[ty][1]], light=True)
+            elif x < 0.42:
+                self.emit(self.gen_editflat())
             else:
                 self.emit(self.gen_edit())
 
     # -- op generators
-    def gen_set(self):
+    def gen_set(self, ty=None):
         r = self.r
-        ty, d = r.randint(0, 1), r.choice(DIDS)
-        if self.homes and r.random() < 0.3 and 3 in self.colls:
-            k = r.choice(list(self.homes))
-            return ["set", 3, self.homes[k][0], self.homes[k][1], k]
+        if ty is None:
+            ty = r.choice([0, 0, 1, 1, 2, 3, 3, 4, 4])
+            if self.homes and r.random() < 0.3 and 3 in self.colls:
+                k = r.choice(list(self.homes))
+                # associate into the TAGGED collection; rarely into a CALIBRATION collection (refused)
+                return ["set", 3 if r.random() < 0.95 else CALIB[0], self.homes[k][0], self.homes[k][1], k]
+            if r.random() < 0.01:
+                ty = UNKNOWN_TY
+        d = r.choice(DOM.get(ty, DIDS))
         runs = [c for c in RUNS if c in self.colls] or [0]
         coll = r.choice(runs)
         k = self.nextk
         self.nextk += 1
         return ["set", coll, ty, d, k]
+
+    def gen_cert(self):
+        """certify an existing dataset into a CALIBRATION collection (validity range unbounded)"""
+        r = self.r
+        cal = [k for k, (ty, _) in self.homes.items() if ty == 3]
+        x = r.random()
+        if not cal:
+            return self.gen_set(ty=3)
+        k = r.choice(cal)
+        ty, d = self.homes[k]
+        if x < 0.80:
+            return ["cert", CALIB[0], ty, d, k]
+        if x < 0.88:
+            return ["cert", r.choice([c for c in self.colls if c not in CALIB] or [UNKNOWN]), ty, d, k]   # wrong collection type
+        if x < 0.92:
+            return ["cert", UNKNOWN, ty, d, k]
+        plain = [k2 for k2, (t2, _) in self.homes.items() if t2 != 3]
+        if plain and CALIB[0] in self.colls:
+            k = r.choice(plain)
+            return ["cert", CALIB[0], self.homes[k][0], self.homes[k][1], k]     # not a calibration dataset type
+        return ["cert", CALIB[0], ty, d, k]
+
+    def gen_editflat(self):
+        r = self.r
+        x = r.random()
+        if x < 0.9 and self.chains:
+            p = r.choice(list(self.chains))
+        elif x < 0.95:
+            p = r.choice([c for c in self.colls if c not in self.chains] or [0])
+        else:
+            p = UNKNOWN
+        names = list(self.colls)
+        w = [3 if c in self.chains else 1 for c in names]
+        cs = r.choices(names, weights=w, k=r.choice([0, 1, 2, 2, 3])) if names else []
+        if r.random() < 0.15:
+            cs.append(p)                       # the parent itself: accepted, it becomes its own leaves
+        if r.random() < 0.06:
+            cs.insert(r.randrange(len(cs) + 1), UNKNOWN)
+        return ["editflat", p, cs]
 
     def gen_rm(self):
         r = self.r
@@ -264,9 +338,17 @@ class Gen:
                     self.chains.pop(n, None)
         elif k == "set":
             _, c, ty, d, kk = op
-            if c in self.colls and c not in self.chains and (c, ty, d) not in self.contents:
+            if ty in TYPES and self.colls.get(c) in ("run", "tagged") and (c, ty, d) not in self.contents:
                 self.contents[(c, ty, d)] = kk
                 self.homes.setdefault(kk, (ty, d))
+        elif k == "cert":
+            _, c, ty, d, kk = op
+            if self.colls.get(c) == "calib" and TYPES.get(ty, ([], False))[1] and (c, ty, d) not in self.contents:
+                self.contents[(c, ty, d)] = kk
+        elif k == "editflat":
+            _, p, cs = op
+            if p in self.chains and all(c in self.colls for c in cs):
+                self.chains[p] = spec_flatten(self.colls, self.chains, cs)
         elif k == "edit":
             _, kind, p, cs, _ = op
             if p in self.chains and all(c in self.colls for c in cs) and (
@@ -292,10 +374,6 @@ class Gen:
         if op[0] == "rmcoll" and op[1] in self.colls and op[1] not in self.chains and \
                 any(c == op[1] for (c, _, _) in self.contents) and not any(op[1] in cs for cs in self.chains.values()):
             op = ["rmcoll", UNKNOWN]     # removing a populated RUN/TAGGED collection is C02's business
-        if op[0] == "sky":
-            self.skyruns.add(op[1])
-        if op[0] == "rmcoll" and op[1] in self.skyruns:
-            op = ["rmcoll", UNKNOWN]     # a RUN holding a {skymap}-only dataset is populated as well
         self.predict(op)
         self.ops.append(op)
         pr = []
@@ -309,13 +387,21 @@ class Gen:
             for _ in range(1 if light else 2):
                 path = self.rand_path()
                 ty = r.choice(keys)[1]
+                govs = TYPES[ty][0]
                 if r.random() < 0.6:
-                    ds = dedupe([r.choice(keys)[2], r.choice(DIDS)])
+                    ds = dedupe([r.choice([k for k in keys if k[1] == ty] or [(0, ty, DOM[ty][0])])[2], r.choice(DOM[ty])])
                     pr.append({"t": "find", "ns": path, "ty": ty, "ds": ds, "apis": [0, 1, 2, 3, 4], "gc": True})
+                    # the data ID already fixes the governors of the type: only a governor the type lacks may be added
+                    if 1 not in govs and r.random() < 0.4:
+                        pr[-1]["fg"] = r.randint(0, 1)     # ... AND skymap = 'S<fg>'
+                    if 0 not in govs and r.random() < 0.4:
+                        pr[-1]["ig"] = r.randint(0, 1)     # ... AND instrument = 'Cam<ig>'
                 else:
-                    pr.append({"t": "find", "ns": path, "ty": ty, "ds": DIDS, "apis": [2, 3], "gc": False})
-                if r.random() < 0.4:
-                    pr[-1]["fg"] = r.randint(0, 1)     # query-based searches also constrained by skymap = 'S<fg>'
+                    pr.append({"t": "find", "ns": path, "ty": ty, "ds": DOM[ty], "apis": [2, 3], "gc": False})
+                    if r.random() < 0.4:
+                        pr[-1]["fg"] = r.randint(0, 1)
+                    if r.random() < 0.3:
+                        pr[-1]["ig"] = r.randint(0, 1)
                 # the same search with one chain replaced by its children: must give the same answers
                 chs = [i for i, c in enumerate(path) if c in self.chains]
                 if chs and r.random() < 0.5:
@@ -353,7 +439,17 @@ def c_op(op):
         return f"ORmColl {cn(op[1])}"
     if k == "set":
         return f"OSet {cn(op[1])} {cn(op[2])} {cn(op[3])} {cn(op[4])}"
+    if k == "cert":
+        return f"OCert {cn(op[1])} {cn(op[2])} {cn(op[3])} {cn(op[4])}"
+    if k == "type":
+        return f"OType {cn(op[1])} {cnl(op[2])} {cbool(op[3])}"
+    if k == "editflat":
+        return f"OEditFlat {cn(op[1])} {cnl(op[2])}"
     return f"OEdit {KIND[op[1]]} {cn(op[2])} {cnl(op[3])}"
+
+
+def c_cons(c):
+    return clist(f"({cn(g)}, {cn(v)})" for g, v in sorted(c.items()))
 
 
 def c_probes(specs, obs):
@@ -366,19 +462,21 @@ def c_probes(specs, obs):
         else:
             for api, per_d in o.items():
                 for d, od in per_d.items():
-                    out.append(f"PFind {cn(int(api))} {cbool(p['gc'])} {cnl(p['ns'])} {cn(p['ty'])} {cn(int(d))} {c_fres(od)}")
+                    out.append(f"PFind {cn(int(api))} {c_cons(probe_cons(p, int(d)))} {cnl(p['ns'])} {cn(p['ty'])} {cn(int(d))} {c_fres(od)}")
     return out
 
 
 def c_case(case, res):
-    steps = []
+    # the dataset types the driver registers before the history starts
+    steps = [f"(OType {cn(ty)} {cnl(gs)} {cbool(cal)}, Done, [], [])" for ty, (gs, cal) in TYPES.items()]
     for st in res["steps"]:
         i = st["step"]
-        if case["ops"][i][0] == "sky":
-            continue        # {skymap}-only datasets are outside the model (they never match a dt0 / dt1 search); oracle only
+        op = case["ops"][i]
+        if op[0] == "sky":      # older replays: a {skymap}-only dataset
+            op = ["set", op[1], 2, 64 * (op[2] + 1), 900 + i]
         out = "Done" if st["out"] == "ok" else f"(Refused {c_err(st['out'])})"
         rows = clist(f"mkRow {cn(a)} {cz(b)} {cn(c)}" for a, b, c in st["rows"])
-        steps.append(f"({c_op(case['ops'][i])}, {out}, {clist(c_probes(case['probes'][i], st['probes']))}, {rows})")
+        steps.append(f"({c_op(op)}, {out}, {clist(c_probes(case['probes'][i], st['probes']))}, {rows})")
     return clist(steps)
 
 
@@ -418,29 +516,34 @@ class Oracle:
             nchains = {int(k): v for k, v in st["chains"].items()}
             out = st["out"]
             ctx.count()
-            ctx.hist("op", op[1] if op[0] == "edit" else op[0])
+            ctx.hist("op", op[1] if op[0] == "edit" else ("flatten" if op[0] == "editflat" else op[0]))
             ctx.hist("outcome", out)
             # ---- never cyclic
             if st["cyclic"] or graph_cyclic(nchains):
-                self.fail(f"cycle-created:{op[1] if op[0] == 'edit' else op[0]}", i, "a chain definition became cyclic", chains=nchains)
+                self.fail(f"cycle-created:{op[1] if op[0] == 'edit' else ('flatten' if op[0] == 'editflat' else op[0])}", i, "a chain definition became cyclic", chains=nchains)
                 return
             # ---- every child exists
             for p, cs in nchains.items():
                 if any(c not in ncolls for c in cs):
                     self.fail("dangling-child", i, "a chain refers to a collection that does not exist", chains=nchains)
             # ---- effect of the op on chain definitions
-            if op[0] == "edit":
-                _, kind, p, cs, _via = op
+            if op[0] in ("edit", "editflat"):
+                if op[0] == "edit":
+                    _, kind, p, cs, _via = op
+                else:
+                    (_, p, cs), kind = op, "flatten"
                 reasons = set()
                 if any(c not in colls for c in cs) or p not in colls:
                     reasons.add("MissingCollection")
                 if p in colls and colls[p] != "CHAINED":
                     reasons.add("CollectionTypeErr")
-                if kind != "remove" and any(reaches(chains, c, p) and c in chains for c in cs if c in colls) and colls.get(p) == "CHAINED":
+                # flatten=True replaces the children by their non-chain leaves first: no chain among them, no cycle
+                if kind not in ("remove", "flatten") and any(reaches(chains, c, p) and c in chains for c in cs if c in colls) \
+                        and colls.get(p) == "CHAINED":
                     reasons.add("Cycle")
                 if not reasons:
                     want = dict(chains)
-                    want[p] = spec_edit(chains[p], kind, cs)
+                    want[p] = spec_flatten(colls, chains, cs) if kind == "flatten" else spec_edit(chains[p], kind, cs)
                     if out != "ok":
                         self.fail(f"edit-spurious-refusal:{kind}:{out}", i, f"a valid {kind} was refused with {out}", before=chains)
                     elif nchains != want:
@@ -453,7 +556,7 @@ class Oracle:
                 else:
                     ctx.hist("refusal", "+".join(sorted(reasons)))
                     if "Cycle" in reasons:
-                        lv = min(dist(chains, c, p) for c in cs if c in colls and reaches(chains, c, p))
+                        lv = min(dist(chains, c, p) for c in cs if c in colls and reaches(chains, c, p) and c in chains)
                         ctx.hist("cycle_attempt_levels", lv)
                     ctx.nontrivial({"k": kind, "p": p, "cs": cs, "chains": chains})
                     if out == "ok":
@@ -473,8 +576,17 @@ class Oracle:
                 if nchains != want:
                     self.fail(f"chains-changed-by:{op[0]}", i, "an operation that is not a chain edit changed chain definitions",
                               before=chains, got=nchains)
-                if op[0] == "set" and out == "ok":
+                if op[0] in ("set", "cert") and out == "ok":
                     contents.setdefault((op[1], op[2], op[3]), op[4])
+                if op[0] == "sky" and out == "ok":
+                    contents.setdefault((op[1], 2, 64 * (op[2] + 1)), -1)
+                if op[0] == "cert":
+                    # documented: only calibration dataset types, only into CALIBRATION collections, no overlapping
+                    # validity range for one data ID
+                    legal = colls.get(op[1]) == "CALIBRATION" and TYPES.get(op[2], ([], False))[1]
+                    if out == "ok" and not legal:
+                        self.fail("certify-accepted-invalid", i, "certify accepted a non-calibration dataset type or collection")
+                    ctx.hist("certify", out)
                 if op[0] == "rmcoll" and out == "ok":
                     contents = {k: v for k, v in contents.items() if k[0] != op[1]}
             colls, chains = ncolls, nchains
@@ -520,9 +632,15 @@ class Oracle:
         path = spec_flatten(colls, chains, p["ns"])
         depth = max([depth_of(chains, n) for n in p["ns"]] or [0])
         ctx.hist("search_depth", depth)
-        ctx.hist("find_constraint", "foreign-governor(skymap)" if p.get("fg") is not None else "none")
+        ty = p["ty"]
+        govs, calty = TYPES.get(ty, ([0], False))
+        where = {g: v for g, v in ((1, p.get("fg")), (0, p.get("ig"))) if v is not None}
+        ctx.hist("find_constraint", "none" if not where else
+                 "+".join(("own-" if g in govs else "foreign-") + ("skymap" if g else "instrument") for g in sorted(where)))
+        calibs = {c for c, t in colls.items() if t == "CALIBRATION"}
         for api, per_d in o.items():
-            nm = API_NAMES[int(api)]
+            api = int(api)
+            nm = API_NAMES[api]
             for d, od in per_d.items():
                 d = int(d)
                 ctx.count()
@@ -532,16 +650,30 @@ class Oracle:
                         self.fail(f"find:{nm}:unknown-collection", i, "search over an unknown collection did not raise MissingCollectionError",
                                   probe=p, got=od)
                     continue
-                want = spec_first(contents, path, p["ty"], d)
-                holders = [c for c in path if (c, p["ty"], d) in contents]
+                # the path that is searched: findDataset / find_dataset without a timespan do not search CALIBRATION
+                # collections (documented); Butler.get looks a calibration dataset type up with an unbounded timespan
+                skip = api in (0, 1) or (api == 4 and not calty)
+                spath = [c for c in path if not (skip and c in calibs)]
+                if calibs & set(path):
+                    ctx.hist("calibration_in_path", f"{nm}:{'skipped' if skip else 'searched'}")
+                # a WHERE constraint on a governor of the dataset type selects data IDs; on any other governor it
+                # selects nothing (every value named exists)
+                selected = api not in (2, 3) or all(gval(g, d) == (v + 1 if g == 1 else v) for g, v in where.items() if g in govs)
+                want = spec_first(contents, spath, ty, d) if selected else []
+                holders = [c for c in spath if (c, ty, d) in contents]
                 if len(holders) >= 2:
-                    ctx.nontrivial({"ns": p["ns"], "ty": p["ty"], "d": d, "chains": chains, "holders": holders})
-                    ctx.hist("shadowing", "first-is-head" if holders[0] == path[0] else "first-is-deeper")
+                    ctx.nontrivial({"ns": p["ns"], "ty": ty, "d": d, "chains": chains, "holders": holders})
+                    ctx.hist("shadowing", "first-is-head" if holders[0] == spath[0] else "first-is-deeper")
+                if where and holders and api in (2, 3):
+                    ctx.nontrivial({"ns": p["ns"], "ty": ty, "d": d, "where": where, "chains": chains, "holders": holders})
+                if od == {"e": "NotImplementedError"} and api == 3 and calibs & set(p["ns"]):
+                    ctx.hist("legacy_calibration", "explicit CALIBRATION collection: NotImplementedError")
+                    continue        # documented limitation of the legacy query system, not an answer
                 if od != {"l": want}:
                     kindf = ("error:" + od["e"]) if "e" in od else ("missed" if not od["l"] else ("phantom" if not want else "wrong-dataset"))
                     self.fail(f"find:{nm}:{kindf}", i, f"{nm} did not return the dataset of the first collection of the flattened path that has one",
-                              probe=p, data_id=d, got=od, want=want, path=path, chains=chains,
-                              contents=[[*k, v] for k, v in contents.items() if k[1] == p["ty"] and k[2] == d])
+                              probe=p, data_id=d, got=od, want=want, path=spath, chains=chains,
+                              contents=[[*k, v] for k, v in contents.items() if k[1] == ty and k[2] == d])
 
 
 # ---------------------------------------------------------------------------------------------
